@@ -572,11 +572,24 @@ impl LockFreeMemoryPool {
         
         // Always allocate from backing memory to ensure consistent pointer validation
         // External cache allocations would cause pointer validation failures in deallocate
-        let offset = self.next_offset.fetch_add(aligned_size as u32, Ordering::Relaxed);
-        
-        if offset as usize + aligned_size > self.config.memory_size {
-            return Err(ZiporaError::out_of_memory(aligned_size));
-        }
+        // The offset only advances when the block fits: a failed request must neither consume
+        // space nor wrap the 32-bit offset around into memory that is already in use.
+        let mut current = self.next_offset.load(Ordering::Relaxed);
+        let offset = loop {
+            let end = match (current as usize).checked_add(aligned_size) {
+                Some(end) if end <= self.config.memory_size && end <= u32::MAX as usize => end,
+                _ => return Err(ZiporaError::out_of_memory(aligned_size)),
+            };
+            match self.next_offset.compare_exchange_weak(
+                current,
+                end as u32,
+                Ordering::Relaxed,
+                Ordering::Relaxed,
+            ) {
+                Ok(_) => break current,
+                Err(actual) => current = actual,
+            }
+        };
 
         let ptr = self.offset_to_ptr(offset)?;
         
